@@ -4,10 +4,20 @@ import copy
 
 
 class Budget(object):
-    def __init__(self, n):
+    """Bounds minimisation by number of re-executions and by wall time (reporting must not take for ever)."""
+
+    def __init__(self, n, seconds=90.0):
+        import time
+
         self.left = n
+        self._deadline = time.monotonic() + seconds
 
     def take(self):
+        import time
+
+        if time.monotonic() > self._deadline:
+            self.left = 0
+            return False
         self.left -= 1
         return self.left >= 0
 
